@@ -5,7 +5,7 @@ use std::sync::Arc;
 
 use rustic_core::repofile::SnapshotFile;
 use rustic_core::{
-    BackupOptions, ConfigOptions, KeyOptions, LimitOption, PruneOptions, RepairIndexOptions, RepairSnapshotsOptions, RewriteOptions, RewriteTreesOptions, RusticResult,
+    BackupOptions, ConfigOptions, Credentials, KeyOptions, LimitOption, PruneOptions, RepairIndexOptions, RepairSnapshotsOptions, RewriteOptions, RewriteTreesOptions, RusticResult,
     last_modified_node,
 };
 use serde::{Deserialize, Serialize};
@@ -20,12 +20,12 @@ use crate::props::c01::build_model_min;
 use crate::rng::{Rng, hash64};
 use crate::sched::Mode;
 use crate::sim::{Cmd, Sim};
-use crate::store::{Fault, Files, Op, OpKind, SimStore, apply_ops, files_digest};
-use crate::world::{KeyMat, RepoCfg, backup_model, repo_init, repo_open, snap_template};
+use crate::store::{Fault, Files, Op, SimStore, apply_ops, files_digest};
+use crate::world::{KeyMat, RepoCfg, repo_init, repo_on, repo_open, snap_template};
 
 pub struct C03;
 
-pub const KINDS: [&str; 13] = [
+pub const KINDS: [&str; 20] = [
     "backup-first",
     "backup-next",
     "forget",
@@ -39,7 +39,17 @@ pub const KINDS: [&str; 13] = [
     "merge",
     "config",
     "copy",
+    "prune-repack-all",
+    "prune-after-crash",
+    "prune-instant-after-crash",
+    "backup-after-crash",
+    "forget-many",
+    "rewrite-meta",
+    "key-change",
 ];
+
+pub const OLD_PW: &str = "old password";
+pub const NEW_PW: &str = "new password";
 
 #[derive(Clone, Debug, Serialize, Deserialize)]
 pub struct Spec {
@@ -82,7 +92,7 @@ struct Ctx {
 fn run_kind(sim: &mut Sim, kind: &str, mode: &Mode, ctx: &Ctx) -> Cmd<KOut> {
     let (store, key, sched, seed) = (sim.store.clone(), sim.key.clone(), sim.sched.clone(), sim.seed);
     match kind {
-        "backup-first" | "backup-next" => {
+        "backup-first" | "backup-next" | "backup-after-crash" => {
             let m = ctx.m_new.clone();
             match sim.backup(mode, &m, 1, &BackupOptions::default(), &ctx.plan, "c03") {
                 Cmd::Ok(snap) => Cmd::Ok(KOut { new_known: vec![(id_hex(&snap.id), m)], may_vanish: vec![] }),
@@ -92,15 +102,23 @@ fn run_kind(sim: &mut Sim, kind: &str, mode: &Mode, ctx: &Ctx) -> Cmd<KOut> {
                 Cmd::Harness(h) => Cmd::Harness(h),
             }
         }
+        "forget-many" => {
+            let ids = vec![ctx.pre[0].clone(), ctx.pre[1].clone()];
+            let r = sim.forget(mode, 1, &ids);
+            map_unit(r, KOut { new_known: vec![], may_vanish: ids })
+        }
         "forget" => {
             let ids = vec![ctx.pre[0].clone()];
             let r = sim.forget(mode, 1, &ids);
             map_unit(r, KOut { new_known: vec![], may_vanish: ids })
         }
-        "prune-mark" | "prune-instant" | "prune-delete-marked" => {
+        "prune-mark" | "prune-instant" | "prune-delete-marked" | "prune-repack-all" | "prune-after-crash" | "prune-instant-after-crash" => {
             let mut o = PruneOptions::default().max_unused(LimitOption::Percentage(0)).max_repack(LimitOption::Unlimited).keep_delete(jiff::Span::new().hours(1));
-            if kind == "prune-instant" {
+            if kind == "prune-instant" || kind == "prune-instant-after-crash" {
                 o = o.instant_delete(true);
+            }
+            if kind == "prune-repack-all" {
+                o = o.repack_all(true);
             }
             if kind == "prune-delete-marked" {
                 o = o.keep_delete(jiff::Span::new());
@@ -137,6 +155,29 @@ fn run_kind(sim: &mut Sim, kind: &str, mode: &Mode, ctx: &Ctx) -> Cmd<KOut> {
                 repo.rewrite_snapshots_and_trees(snaps, &opts, &tree_opts).map(|_| ())
             });
             map_unit(r, KOut { new_known: vec![], may_vanish: vec![ctx.pre[0].clone()] })
+        }
+        "rewrite-meta" => {
+            let r = sim.run(mode, move || {
+                let repo = repo_open(&store, 1, &key)?;
+                let snaps = repo.get_all_snapshots()?;
+                let mut opts = RewriteOptions::default().forget(true);
+                opts.modification.set_label = Some("relabelled".into());
+                repo.rewrite_snapshots(snaps, &opts).map(|_| ())
+            });
+            map_unit(r, KOut { new_known: vec![], may_vanish: ctx.pre.clone() })
+        }
+        "key-change" => {
+            let r = sim.run(mode, move || {
+                let old = repo_on(store.handle(1), None, None)?.open(&Credentials::password(OLD_PW))?;
+                let old_id = old.key_id().clone();
+                let _ = old.add_key(NEW_PW, &KeyOptions::default())?;
+                let new = repo_on(store.handle(1), None, None)?.open(&Credentials::password(NEW_PW))?;
+                match old_id {
+                    Some(id) => new.delete_key(&id),
+                    None => Ok(()),
+                }
+            });
+            map_unit(r, KOut::default())
         }
         "merge" => {
             let r = sim.run(mode, move || {
@@ -184,6 +225,29 @@ fn map_unit(r: Cmd<()>, out: KOut) -> Cmd<KOut> {
     }
 }
 
+/// key-change: at every moment one of the two passwords must open the repository
+fn password_oracle(sim: &mut Sim, kind: &str, files: &Files) -> Vec<(String, String)> {
+    if kind != "key-change" {
+        return vec![];
+    }
+    let store = SimStore::from_files("pw-oracle", crate::sched::Sched::new(), files.clone());
+    let r = sim.run(&Mode::Free, move || {
+        let mut errs = vec![];
+        for pw in [OLD_PW, NEW_PW] {
+            match repo_on(store.handle(94), None, None)?.open(&Credentials::password(pw)) {
+                Ok(_) => return Ok(vec![]),
+                Err(e) => errs.push(format!("{pw}: {}", e.display_log())),
+            }
+        }
+        Ok(errs)
+    });
+    match r {
+        Cmd::Ok(errs) if errs.is_empty() => vec![],
+        Cmd::Ok(errs) => vec![("no-password-opens-the-repository".into(), errs.join("; "))],
+        other => vec![(format!("oracle-{}", other.class()), other.detail())],
+    }
+}
+
 fn op_desc(op: &Op) -> String {
     format!("{} {}", op.kind.short(), crate::store::ft_name(op.tpe))
 }
@@ -205,7 +269,8 @@ impl Prop for C03 {
         }
     }
     fn rule(&self) -> &'static str {
-        "one run = one command kind (backup first/next, forget, prune mark/instant/delete-marked, repair index (+read-all), repair snapshots, rewrite+forget, merge, config+key add, copy into) on a \
+        "one run = one command kind (backup first/next, forget of one/several snapshots, prune mark/instant/delete-marked/repack-all, repair index (+read-all), repair snapshots, rewrite of trees / of metadata + forget, merge, config+key add, \
+         password change (add key, delete old key: some password must open the repository at every prefix), copy into; prune / instant prune / backup started on the state an interrupted earlier run of the same command left behind) on a \
          generated pre-state, executed once under a seeded gate schedule to record its write/remove log L; then EVERY prefix S0+L[..k] is opened with a fresh handle (index load, every listed snapshot read \
          completely, old snapshots compared with their model), and for up to 12 (quick) / 24 (thorough) positions j the command is re-executed from S0 under the same schedule with op j failing \
          (no effect) and again with op j failing after taking effect: the command must return Err (a panic is its own violation class) and the resulting state and every later prefix must satisfy the same oracle. \
@@ -293,7 +358,7 @@ impl Prop for C03 {
         match kind {
             "backup-first" => {}
             "backup-next" => pre_models.push(&m0),
-            "forget" | "merge" | "rewrite" | "repair-snapshots" | "repair-index" | "repair-index-read-all" | "config" | "copy" => {
+            "forget" | "merge" | "rewrite" | "repair-snapshots" | "repair-index" | "repair-index-read-all" | "config" | "copy" | "backup-after-crash" | "rewrite-meta" | "key-change" => {
                 pre_models.push(&m0);
                 pre_models.push(&m1);
             }
@@ -329,6 +394,39 @@ impl Prop for C03 {
                 }
                 interpose::clock_advance(2 * 3_600_000_000_000);
             }
+        }
+        if kind == "prune-after-crash" || kind == "prune-instant-after-crash" || kind == "backup-after-crash" {
+            // the state an interrupted earlier run of the same command left behind (its own crash
+            // prefixes are judged by the prune-mark / backup-next kinds)
+            let o_mark = PruneOptions::default().max_unused(LimitOption::Percentage(0)).max_repack(LimitOption::Unlimited).keep_delete(jiff::Span::new().hours(1));
+            // count the mutation ops of the uninterrupted run on a fork, then cut inside
+            let mut probe = sim.fork(sim.store.files(), "c03-probe");
+            probe.store.clear_log();
+            let _ = if kind == "backup-after-crash" { probe.backup(&Mode::Free, &m2, 1, &BackupOptions::default(), &plan, "c03").map_unit() } else { probe.prune(&Mode::Free, 1, &o_mark) };
+            let n_ops = probe.store.log().iter().filter(|o| o.kind.is_mutation()).count();
+            let k = if n_ops > 1 { 1 + rng.usize(n_ops - 1) } else { 0 };
+            sim.store.set_faults(vec![Fault::CrashAt { actor: 1, k }]);
+            let r = if kind == "backup-after-crash" {
+                sim.backup(&Mode::Free, &m2, 1, &BackupOptions::default(), &plan, "c03").map_unit()
+            } else {
+                sim.prune(&Mode::Free, 1, &o_mark)
+            };
+            sim.store.set_faults(vec![]);
+            sim.store.clear_log();
+            rep.fire(if r.is_ok() { "earlier_run_completed" } else { "earlier_run_interrupted" }, 1);
+            if let Cmd::Panic(p) = &r {
+                rep.violation(format!("C03/panic-on-io-error:{kind}:prestate:{}", common::classify(&common::short_loc(p))), format!("interrupted earlier run panicked: {p}"));
+                return rep;
+            }
+            interpose::clock_advance(600_000_000_000);
+        }
+        if kind == "key-change" {
+            let (st, ky) = (sim.store.clone(), sim.key.clone());
+            if let r @ (Cmd::Err(_) | Cmd::Panic(_) | Cmd::NoProgress | Cmd::Harness(_)) = sim.run(&Mode::Free, move || repo_open(&st, 1, &ky)?.add_key(OLD_PW, &KeyOptions::default()).map(|_| ())) {
+                rep.violation(format!("C03/prestate-add-key-{}", r.class()), r.detail());
+                return rep;
+            }
+            sim.store.clear_log();
         }
         // copy: the pre-state is the *source*; the observed world is a fresh destination repo
         let mut ctx = Ctx { m_new: if kind == "backup-first" { m0.clone() } else { m2.clone() }, plan: plan.clone(), pre: pre_ids.clone(), dst: None, damaged: vec![] };
@@ -423,7 +521,8 @@ impl Prop for C03 {
             evaluations += 1;
             rep.fire("crash_prefix", 1);
             let window = format!("after {} / before {}", if k == 0 { "nothing".to_string() } else { op_desc(&log[k - 1]) }, if k == n { "end".to_string() } else { op_desc(&log[k]) });
-            for (fp, d) in sim.state_oracle(files, &expected, &kout.may_vanish, &ignore) {
+            let pw = password_oracle(&mut sim, kind, &files);
+            for (fp, d) in sim.state_oracle(files, &expected, &kout.may_vanish, &ignore).into_iter().chain(pw) {
                 rep.violation(format!("C03/crash:{kind}:{fp} [{window}]"), format!("crash after {k} of {n} mutation ops ({window}): {d}"));
             }
             if !rep.violations.is_empty() {
@@ -502,7 +601,8 @@ impl Prop for C03 {
                         let mut files = s0.clone();
                         apply_ops(&mut files, &flog[..k]);
                         rep.states.push(files_digest(&files));
-                        for (fp, d) in f.state_oracle(files, &exp_f, &kout.may_vanish, &ignore) {
+                        let pw = password_oracle(&mut f, kind, &files);
+                        for (fp, d) in f.state_oracle(files, &exp_f, &kout.may_vanish, &ignore).into_iter().chain(pw) {
                             rep.violation(format!("C03/after-failed-op:{kind}:{fp} [{what}]"), format!("{kind} with failing {what} (op {j} of {n}), state after {k} ops: {d}"));
                         }
                         if !rep.violations.is_empty() {
